@@ -4,7 +4,7 @@ Loop-free functions + bounded iterator models, path enumeration with optional st
 import re, sys, itertools
 import z3
 import os
-from .structs import load_structs
+from .structs import load_structs, VARIANTS as ENUM_VARIANTS
 REPO = os.environ.get('VERIF_REPO', '/repo')
 STRUCTS, ENUMS = load_structs([REPO + '/programs/marginfi/src', REPO + '/type-crate/src', REPO + '/programs/kamino-mocks/src', REPO + '/programs/drift-mocks/src', REPO + '/programs/solend-mocks/src'])
 
@@ -176,7 +176,7 @@ class Opaque:
     def __init__(self, ty, name): self.ty = ty; self.name = name
     def __repr__(self): return f'Opaque({self.name})'
 class Cell:
-    def __init__(self, val=None): self.val = val
+    def __init__(self, val=None, name=None): self.val = val; self.name = name
 
 CLIKE = {'BalanceSide': ['Assets', 'Liabilities'], 'RiskTier': ['Collateral', 'Isolated'],
          'BankOperationalState': ['Paused', 'Operational', 'ReduceOnly', 'KilledByBankruptcy'],
@@ -184,6 +184,14 @@ CLIKE = {'BalanceSide': ['Assets', 'Liabilities'], 'RiskTier': ['Collateral', 'I
          'BalanceDecreaseType': ['WithdrawOnly', 'BorrowOnly', 'BypassBorrowLimit'],
          'RequirementType': ['Initial', 'Maintenance', 'Equity']}
 VARIANT_IDX = {'None': 0, 'Some': 1, 'Ok': 0, 'Err': 1, 'Continue': 0, 'Break': 1}
+
+def variant_index(enum_ty, vname):
+    if vname in VARIANT_IDX: return VARIANT_IDX[vname]
+    base = re.sub(r'<.*', '', str(enum_ty)).split('::')[-1]
+    if base in ENUM_VARIANTS and vname in ENUM_VARIANTS[base]: return ENUM_VARIANTS[base].index(vname)
+    cands = [vs.index(vname) for en, vs in ENUM_VARIANTS.items() if vname in vs]
+    if len(set(cands)) == 1: return cands[0]
+    raise Exception(f'unknown variant {vname} of {enum_ty}')
 
 class PathEnd(Exception):
     pass
@@ -232,6 +240,9 @@ class Ex:
         if ty == '()':
             return StructV('()', name, {}, lazy=False)
         sn = re.sub(r'<.*', '', ty).split('::')[-1]
+        if sn in ENUM_VARIANTS and sn not in ENUMS and sn not in ('Option', 'Result'):
+            d = z3.Int(name + '.tag'); self.assumptions.append(z3.And(d >= 0, d < len(ENUM_VARIANTS[sn])))
+            return EnumV(sn, d, {})
         if sn in ENUMS and sn not in ('Option', 'Result'):
             d = z3.Int(name + '.tag'); vals = sorted(ENUMS[sn].values())
             self.assumptions.append(z3.Or([d == v for v in vals]))
@@ -452,7 +463,7 @@ class Engine:
                 else:
                     raise Exception(f'field {step} of {v}')
             elif step[0] == 'v':
-                idx = VARIANT_IDX[step[1]]
+                idx = variant_index(getattr(v, 'ty', ''), step[1])
                 v = v.payload.setdefault(idx, {})
             elif step[0] == 'i':
                 if isinstance(v, StructV):
@@ -650,9 +661,19 @@ class Engine:
             raise Exception(f'discriminant of {v}')
         m = re.match(r'^(\w+)\((.*)\)$', rhs)
         if m and m.group(1) in ('Add', 'Sub', 'Mul', 'Div', 'Rem', 'Eq', 'Ne', 'Lt', 'Le', 'Gt', 'Ge', 'BitAnd', 'BitOr', 'BitXor', 'Shl', 'Shr',
-                                'AddWithOverflow', 'SubWithOverflow', 'MulWithOverflow', 'Not', 'Neg', 'Len', 'ShlUnchecked', 'ShrUnchecked', 'AddUnchecked', 'SubUnchecked'):
+                                'AddWithOverflow', 'SubWithOverflow', 'MulWithOverflow', 'Not', 'Neg', 'Len', 'PtrMetadata', 'ShlUnchecked', 'ShrUnchecked', 'AddUnchecked', 'SubUnchecked'):
             args = [self.operand(st, a) if not a.strip().startswith('_') else self.read(st, self.parse_place(a)) for a in split_top(m.group(2), ',')]
             op = m.group(1).replace('Unchecked', '')
+            if op in ('PtrMetadata', 'Len'):
+                lv = self.deref_val(args[0])
+                if isinstance(lv, StructV):
+                    am = re.match(r'^\[(.*); (\d+)\]$', lv.ty.strip())
+                    if am: return IntV(z3.IntVal(int(am.group(2))), 'usize')
+                    if '__len' not in lv.fields:
+                        ln = z3.Int(lv.name + '.len'); self.ex.assumptions.append(z3.And(ln >= 0, ln <= 2**32))
+                        lv.fields['__len'] = IntV(ln, 'usize')
+                    return lv.fields['__len']
+                return IntV(z3.Int(self.ex.fresh_name('len')), 'usize')
             if op == 'Not':
                 a = args[0]
                 return BoolV(z3.Not(a.e)) if isinstance(a, BoolV) else IntV(z3.Int(self.ex.fresh_name('not')), a.ty)
@@ -685,6 +706,7 @@ class Engine:
                     k = k.strip(); val = self.operand(st, v)
                     sv.fields[k] = val
                     if order and k in order: sv.fields[order.index(k)] = val
+                    elif not order: sv.fields[i] = val      # closures / foreign structs: MIR prints fields in declaration (index) order
             return sv
         # unit-like enum variant path  (C-like enum constant)
         if re.match(r'^[\w:<>]+$', rhs):
@@ -701,6 +723,12 @@ class Engine:
         m = re.match(r'^([\w:<>\', &]+)\((.*)\)$', rhs)
         if m:
             vals = [self.operand(st, a) for a in split_top(m.group(2), ',') if a.strip()]
+            segs = re.sub(r'::<[^()]*>$', '', m.group(1)).split('::')
+            if len(segs) >= 2:
+                en = re.sub(r'<.*', '', segs[-2]); vn = segs[-1]
+                if en in ENUM_VARIANTS and vn in ENUM_VARIANTS[en]:
+                    idx = ENUM_VARIANTS[en].index(vn)
+                    return EnumV(en, idx, {idx: dict(enumerate(vals))})
             return StructV(m.group(1), self.ex.fresh_name('variant'), dict(enumerate(vals)), lazy=False)
         raise Exception('rvalue? ' + rhs)
 
@@ -1055,6 +1083,7 @@ class Engine:
             if isinstance(ld, StructV):
                 if '__acct' not in ld.fields:
                     ld.fields['__acct'] = Cell(self.ex.fresh(m.group(1), ld.name + '.acct'))
+                    ld.fields['__acct'].name = ld.name + '.acct'
                 d = z3.Int(self.ex.fresh_name('load_ok')); self.ex.assumptions.append(z3.And(d >= 0, d <= 1))
                 st.events.append(('call', c, [ld.name]))
                 return EnumV('Result', d, {0: {0: StructV('RefX', 'refx', {'__target': RefV(ld.fields['__acct'])}, lazy=False)}, 1: {0: Opaque('E', 'err')}})
@@ -1506,7 +1535,7 @@ class Engine:
         if m and not re.match(r'^(Add|Sub|Mul|Div|Rem|Eq|Ne|Lt|Le|Gt|Ge|BitAnd|BitOr|BitXor|Shl|Shr|Not|Neg|discriminant|\w+WithOverflow)$', m.group(2)):
             dest, callee, argstr, retbb = m.groups()
             return self.do_call(st, dest, callee, argstr, retbb)
-        m = re.match(r'^(.*?) = (.*)\((.*)\) -> unwind.*$', s)
+        m = re.match(r'^(.*?) = (.*)\((.*)\) -> (unwind.*|bb\d+|\[unwind.*\])$', s)
         if m and ' -> ' in s and 'return:' not in s:
             raise PathEnd('diverging call ' + m.group(2)[:60] + ' in ' + fn.name[-70:])
         m = re.match(r'^(\S.*?) = (.*)$', s)
@@ -1552,11 +1581,25 @@ class Engine:
                 return
         if v is None:
             self.stats['opaque_calls'][callee[:90]] = self.stats['opaque_calls'].get(callee[:90], 0) + 1
-            st.events.append(('call', callee, args))
             dm = re.match(r'^(_\d+)$', dest)
             ty = fn.locals.get(dm.group(1)) if dm else None
             if dest == '_0': ty = fn.ret
             v = self.ex.fresh(ty, self.ex.fresh_name('ret_' + re.sub(r'\W+', '_', callee)[-30:])) if ty else Opaque('?', callee)
+            # an opaque callee may write through every `&mut` argument: havoc the pointees (over-approximation)
+            hav = []
+            for astr, aval in zip([a for a in split_top(argstr, ',') if a.strip()], args):
+                am = re.match(r'^\s*(?:copy|move)\s+(_\d+)\s*$', astr)
+                aty = fn.locals.get(am.group(1)) if am else None
+                if aty is None and am:
+                    aty = dict(fn.params).get(am.group(1))
+                if aty and re.match(r"^&('\w+ )?mut ", aty) and isinstance(aval, RefV) and getattr(self, 'havoc', True):
+                    inner = re.sub(r"^&('\w+ )?mut ", '', aty)
+                    try:
+                        nv = self.ex.fresh(inner, self.ex.fresh_name('havoc_' + re.sub(r'\W+', '_', inner)[-20:]))
+                        self.set_path(aval.cell, aval.path, nv); hav.append(am.group(1))
+                    except Exception:
+                        pass
+            st.events.append(('call', callee, args, v, hav))
         self.assign(st, dest, v)
         self.goto(st, retbb)
 
